@@ -4,13 +4,14 @@ EXTENDS Framing, Json
 Lens == {8, 16, 24}
 SmallA == UNION {[1..n -> Lens] : n \in 0..3}
 \* every message sequence of <= 3 messages of 8/16/24 bytes x every truncation offset x limit {none, 16}
-SmallStreams == UNION {{[A |-> a, trunc |-> t, max |-> m] : t \in 0..Total(a), m \in {0, 16}} : a \in SmallA}
+\* ... x which of the messages is malformed (none, the first, the second)
+SmallStreams == UNION {{[A |-> a, bad |-> b, trunc |-> t, max |-> m] : t \in 0..Total(a), m \in {0, 16}, b \in {{}, {1}, {2}}} : a \in SmallA}
 SmallChunks == {1, 2, 3, 7, 8, 9, 15}
 
 \* messages around the initial 512-byte buffer and around the limit; announced lengths relative to the limit
 BigA == {<<520>>, <<504, 16>>, <<512, 8>>, <<520, 520>>, <<1048576>>, <<1048584>>, <<8, 1048568, 8>>, <<1073741824>>,
          <<16, 600, 40, 1000>>, <<3000, 104, 9000, 24>>, <<520, 1048576>>}      \* the last three: the buffer grows more than once on one stream
-BigStreams == UNION {{[A |-> a, trunc |-> t, max |-> m] :
+BigStreams == UNION {{[A |-> a, bad |-> {}, trunc |-> t, max |-> m] :
                         t \in {Total(a), Total(a) - 1, Total(a) - 8, 8, 9, 511, 512, 513} \cap 0..Total(a),
                         m \in {0, 512, 1048576}} : a \in BigA}
 BigChunks == {1, 8, 504, 512, 65536}
